@@ -10,10 +10,16 @@ import os
 from . import core
 
 
+MERGE_STDERR = [False]
+
+
 def render(cases, prelude=""):
-    parts = [prelude]
+    # merged stderr: one `exec 2>&1` for the whole script (a per-block `( ) 2>&1` would itself interfere with what the
+    # blocks do to fd 2)
+    parts = [("exec 2>&1\n" if MERGE_STDERR[0] else "") + prelude]
+    tail = ""
     for i, c in enumerate(cases):
-        parts.append("(\n%s\n)\necho \"@z.%d $?\"" % (c["block"].replace("{i}", str(i)), i))
+        parts.append("(\n%s\n)%s\necho \"@z.%d $?\"" % (c["block"].replace("{i}", str(i)), tail, i))
     return "\n".join(parts) + "\n"
 
 
@@ -41,6 +47,9 @@ def run_shell_batch(shell, cases, prelude, setup_dir, env_extra, timeout):
         setup_dir(d)
     r = core.run_shell(shell, render(cases, prelude), d, env_extra=env_extra, timeout=timeout)
     core.rmtree(d)
+    if NORM[0] is not None:
+        out = r.out.replace(d.encode().hex().encode(), b"2f435744").replace(d.encode(), b"/CWD")
+        return NORM[0](parse(out)), r
     # the scratch directory differs per execution; where it shows up inside hex-dumped arguments (`~+`, $PWD) it is
     # replaced by a fixed token so that both shells' observations are comparable
     out = r.out.replace(d.encode().hex().encode(), b"2f435744").replace(d.encode(), b"/CWD")
@@ -51,11 +60,15 @@ def complete(obs, i):
     return any(t == "@z" for t, _ in obs.get(i, []))
 
 
+NORM = [None]
+
+
 def judge_all(run, cases, on_diff, prelude="", setup_dir=None, env_extra=None, batch=60, timeout=60, on_agree=None,
-              allow_bash_missing=False):
+              allow_bash_missing=False, norm=None):
     """Runs all cases in batches under both shells; calls on_diff(case, brush_obs|None, bash_obs, crash, stderr) for
     divergences and on_agree(case, obs) for agreements."""
     batches = [cases[k:k + batch] for k in range(0, len(cases), batch)]
+    NORM[0] = norm
 
     def work(chunk):
         oh, rh = run_shell_batch("bash", chunk, prelude, setup_dir, env_extra, timeout)
